@@ -21,12 +21,51 @@ CHECKS = [
      "text": "Theorems C04_burst, C04_two_bits, C04_one_bit: a valid checksummed frame altered in timestamp/payload/CRC by a pattern confined to 32 consecutive bits, or of one or two bits anywhere, is never accepted - from the linear algebra of the CRC register (T linear over xor, injective on 32 bit states; order of x checked by vm_compute up to the maximal frame length 8*65557 bits, bound stated). hash/crc32 is compared with the Gallina CRC and the position of the check with the real Read on single flips, pairs, bursts and random corruptions.",
      "design_ref": "6/C04", "technique": "Coq proof (CRC linear algebra + bounded orbit sweep lifted by lemma) + correspondence on bit-level corruptions",
      "note": COMMON_NOTE + "The two-bit theorem is bounded by the maximal frame length (8*65557 bits), stated in the theorem."},
+    {"property_id": "C05",
+     "text": "Theorems C05_valid_iff (the model of validateRequests accepts exactly the acceptable lists: request tags at top level, defined types and matching values at every depth, sizes within the 16 bit limits computed without wrap-around) and C05_send (for every environment, one call of send adds no write at all when it refuses, and otherwise exactly one write attempt whose ciphertext decrypts, on the current chain, to pad32(frame(now, crc, requests)), which is WellFormed and decodes to exactly those requests). validateRequests is compared with the model on the mismatch/size families and whole client sessions over an attached scripted connection are compared event by event (every Write, byte for byte).",
+     "design_ref": "6/C05", "technique": "Coq proof (send_spec over all environments + codec round trip) + session-level correspondence",
+     "note": COMMON_NOTE + "Sessions use the verif hook VerifAttachConn (sets the conn field only)."},
+    {"property_id": "C06",
+     "text": "Theorem C06_sessions (invariant over all histories, all peers and faults): on every connection of every session the ciphertexts written are the CBC chain from the all-0xFF IV of the padded plaintext frames of exactly the requests sent on it - so also for the first frame after any reconnect; C06_peer_decrypts: a peer with the same key padding decrypts that chain to those plaintexts and ends on the same chain value (Rijndael-256 inverse proved). Tied to the code over real TCP: a loopback device that never calls package rscp decrypts with its own chains; ciphertext frames per connection and call results are compared with the model for keys of every length 1..64 and multi-connection sessions.",
+     "design_ref": "6/C06", "technique": "Coq invariant proof over call histories + CBC/Rijndael inverse + TCP correspondence with an independent device",
+     "note": COMMON_NOTE + "The peer->client direction is covered by C01_stream/C07 and by the correspondence (the client decodes every reply of the device)."},
+    {"property_id": "C07",
+     "text": "Theorem C07_reassembly, proved for the concrete receive loop (Rijndael-256/CBC, RSCP frame verdict, reactive peer): for ANY two lists of non-empty pieces with the same concatenation and ANY receive buffer of at least one byte the loop returns the same result and client state - by an invariant over the pieces (pending ++ consumed = prefix, fewer than 32 bytes pending, reader state = state after the block-aligned prefix). Compared with the real client on every single cut, pairs of cuts, uniform piece sizes 1..97 and random cuts x 10 buffer settings; the one-piece result is recomputed on the real client for every case.",
+     "design_ref": "6/C07", "technique": "Coq proof by loop invariant over arbitrary segmentations + scripted-connection correspondence",
+     "note": COMMON_NOTE + "Assumes the transport delivers bytes in order."},
+    {"property_id": "C08",
+     "text": "Theorems call_spec / recovery / exchange on the composed system client || honest reactive peer || fault script (Answer, Silent, CloseBefore, Garbage tail incl. a well-formed stale frame): Sync (in sync or closed) is preserved by every call, the peer's log grows by [] | [auth] | [req] | [auth; req], a successful call returns reply_of its own request, and from a closed state the next call reconnects, re-authenticates and succeeds against a healthy peer - for every codec/cipher satisfying the interface premises (proved separately for the RSCP instance). The concrete client is run over real TCP against a scripted device on histories over {send one, send several, disconnect} x 9 behaviours; frames per connection and results are compared with the model and pairing/order/recovery are evaluated directly from nonces.",
+     "design_ref": "6/C08", "technique": "Coq refinement proof (Sync invariant, peer log) + TCP history correspondence with nonces",
+     "note": COMMON_NOTE + "The C08 theorems are parametric in the codec/cipher interface; the behaviours Late, CloseInside, BadCRC, Malformed, RefuseAuth are covered by the correspondence, not by a theorem."},
+    {"property_id": "C09",
+     "text": "Theorem C09_gate (same invariant as C06, all histories/peers): every frame the client writes is the authentication request or is preceded by a grant (non-zero UChar8/Int32 level under RSCP_AUTHENTICATION as first message) on the same connection, and the first frame of every connection is the authentication request with exactly the configured user and password. All ~600 enumerated authentication replies (4 tags x 18 types x values x 1..3 messages) x 3 follow-ups are run on the real client and compared frame by frame; the gate is also evaluated directly on the real client's writes.",
+     "design_ref": "6/C09", "technique": "Coq invariant proof over traces + exhaustive enumeration of authentication replies",
+     "note": COMMON_NOTE},
+    {"property_id": "C10",
+     "text": "PARTIAL. Theorem C10_budget: in the client model (every environment answer carries its duration; an armed deadline cuts an operation off) every call - for every peer, every fuel, hence every prefix of every execution, endless data included - ends with the clock within start + connect? + authentication? + send + receive timeouts; C10_defaults: zero/negative timeouts fall back to 3 s. The real client is run in virtual time over a scripted connection (stall after every byte offset, failing writes, trickles, endless data x 6 timeout settings) and the sequence of SetWriteDeadline/Write/SetReadDeadline/Read/Close with deadline offsets must equal the model's; a blocking read without an armed deadline, a re-armed read deadline or a wrong deadline is a violation.",
+     "design_ref": "6/C10", "technique": "Coq proof of a clock bound for all environments + virtual-time trace correspondence",
+     "note": COMMON_NOTE + "Wall-clock time, the scheduler and the kernel honouring deadlines are outside the model."},
+    {"property_id": "C11",
+     "text": "PARTIAL. Theorem C11_no_secret: for every environment, level < 99 and sequence of innocent calls no emitted record (Text / Tree / Dump) reveals the password and the logger's level is restored - under four premises stated in the theorem (ciphertext hides the password, the authentication request renders masked, the peer does not echo it). The real client's rendered log is scanned at every level 0..98 (literal, hex, base64, byte dumps parsed back; secret-tagged values in rendered trees) over successful/refused/failing sessions with a secret-tagged message nested at depth 0..3, and the Tree/Dump records around each transmission are compared with the model's.",
+     "design_ref": "6/C11", "technique": "Coq trace invariant (no revealing record) + scan of the real log at all levels",
+     "note": COMMON_NOTE + "fmt/logrus rendering and the cipher-hides premise are assumptions."},
     {"property_id": "C14",
      "text": "Coherence of the vocabularies is proved in Coq over the tables regenerated from the source on every run (finite sweeps by vm_compute lifted with forallb_forall; the JSON round trip of a tag for all 2^32 tags); the model's lookup and JSON functions are compared with Tag/DataType methods on all 3564 tags, all 256 type codes and random unknown tags.",
      "design_ref": "6/C14", "technique": "Coq proof over generated tables (translator) + exhaustive correspondence",
      "note": COMMON_NOTE + "Assumes reflect reports dynamic types faithfully."},
 ]
 
+CHECKS += [
+    {"property_id": "C16",
+     "text": "Theorems C16_iff (a client is created exactly for configurations naming address, user, password and key with a nil or boolean checksum option), C16_error_names (the error names exactly the missing fields) and C16_defaults (port 5033, checksums on, 3 s timeouts for values <= 0, one-block buffer for 0 or > 2049, key = first 32 bytes of key ++ 0xFF...), C16_constants (the model's defaults are the source's, regenerated every run). NewClient is run on every subset of required fields x 10 checksum kinds x lengths up to 70000 x extreme numbers and compared with the model; a panic is a violation.",
+     "design_ref": "6/C16", "technique": "Coq proof on the configuration model + correspondence over the configuration space",
+     "note": COMMON_NOTE + "The error text is classified by the field names it mentions."},
+    {"property_id": "C18",
+     "text": "Theorems C18_grammar (create succeeds with (m, rest) iff the documented grammar Derives args m rest), C18_total (every argument list builds the documented tree or fails with the documented error Fails args e; nothing else), C18_fuel (the fuel error is unreachable), C18_multi. CreateRequest(s) is compared with the model on all 22,620 argument lists of length <= 4 over a 12 symbol alphabet plus random lists and multi-list calls.",
+     "design_ref": "6/C18", "technique": "Coq proof of parser <-> grammar equivalence + exhaustive short-list correspondence",
+     "note": COMMON_NOTE},
+]
+
 _todo = "the machinery for this property is not built yet in this commit (planned: Coq model + theorem + correspondence, see DESIGN.md section 6)"
 NOT_APPLICABLE = [{"property_id": p, "reason": _todo} for p in
-                  ["C05", "C06", "C07", "C08", "C09", "C10", "C11", "C12", "C13", "C15", "C16", "C17", "C18"]]
+                  ["C12", "C13", "C15", "C17"]]
